@@ -13,6 +13,8 @@ func init() {
 	verifRegister("VerifC16_EFmtFree", VerifC16_EFmtFree)
 	verifRegister("VerifC16_EForms", VerifC16_EForms)
 	verifRegister("VerifC17_EMin", VerifC17_EMin)
+	verifRegister("VerifC17_ESession", VerifC17_ESession)
+	verifRegister("VerifC17_KSessionOrder", VerifC17_KSessionOrder)
 }
 
 // tokens of a source text: comments (";...") and everything else split on whitespace/brackets,
@@ -128,6 +130,7 @@ var c16Skeletons = [][]string{
 	{"(", "cond", "(", "x", "1", ")", "(", ":else", "1e3", ")", ")"},
 	{"(", "'lisp:function", "f", ")", "#'g", "(", "'lisp:expr", "x", ")", "''a"},
 	{"(", "set", "'primes", "[", "2", "3", "]", ")", "'", "(", "q", "r", ")"},
+	{"(", "f", "[", "a", "--", "]", "[", "--", "]", "(", "--", ")", ")"},
 }
 
 // Format preserves the expression trees and the comments (order, and the expression each precedes),
@@ -290,6 +293,118 @@ var c17Progs = []string{
 	"(defun first (lst) 'mine) (defun caller (arg) (list (first arg) (rest arg))) (debug-print (caller (list A B)))",
 	"(defmacro reverse (form) (quasiquote (list 'rev (unquote form)))) (debug-print (reverse (+ A B)))",
 	"(set 'nth 5) (defun usevar (arg) (+ arg nth)) (debug-print (usevar A))",
+	// the program's own names look like generated ones
+	"(defun assistfn (num) (+ num 1)) (defun mainfn (x1) (assistfn x1)) (debug-print (mainfn A))",
+	"(defun assistfn (num) (+ num 1)) (let ((x1 B) (x2 A)) (debug-print (assistfn x1) x2))",
+	"(set 'x1 A) (defun assistfn (num) (+ num x1)) (debug-print (assistfn B))",
+}
+
+// multi-file sessions: the files of one session are minified together and loaded in order
+var c17Sessions = [][]string{
+	{
+		"(in-package 'router) (export 'route) (defun route (val) (helperfn val)) (defun helperfn (val) (+ val 1))",
+		"(defun doubler (num) (* num 2)) (set 'topvalue 5)",
+		"(in-package 'user) (debug-print (router:route A) (user:doubler B) topvalue)",
+	},
+	{
+		"(in-package 'lib) (export 'pubfn) (defun pubfn (val) (privfn val))",
+		"(in-package 'lib) (defun privfn (val) (* val 3))",
+		"(in-package 'user) (debug-print (lib:pubfn A) (lib:privfn B))",
+	},
+	{
+		"(defun firstfn (val) (+ val 10)) (in-package 'aux) (defun auxfn (val) (user:firstfn val))",
+		"(defun secondfn (val) (firstfn (+ val 1)))",
+		"(in-package 'user) (debug-print (secondfn A) (aux:auxfn B) (user:secondfn A))",
+	},
+	{
+		"(in-package 'lib) (defun dupfn (val) (+ val 1)) (defun onlyone (val) (dupfn val))",
+		"(in-package 'lib) (defun dupfn (val) (+ val 2)) (defun onlytwo (val) (dupfn val))",
+		"(in-package 'user) (debug-print (lib:dupfn A) (lib:onlyone B) (lib:onlytwo B))",
+	},
+}
+
+// Every file of a session, minified together in a solver-chosen order of the definition files, then
+// loaded in that order into one fresh runtime: same value and output as the originals.
+func VerifC17_ESession() {
+	si := vConcInt(vndChoice("session", len(c17Sessions)))
+	swap := vndBool("swap") // the two definition files in either order; the driver file last
+	a := vndChoice("a", 3)
+	b := vndChoice("b", 3) + 3
+	files := append([]string{}, c17Sessions[si]...)
+	if swap {
+		files[0], files[1] = files[1], files[0]
+	}
+	cfg := &minifier.Config{PreserveParams: true, Formatter: formatter.DefaultConfig()}
+	cfg.Formatter.Compact = true
+	cfg.Formatter.StripComments = true
+	var inputs []minifier.InputFile
+	for i, f := range files {
+		f = strings.Replace(strings.Replace(f, "A", itoa(a), -1), "B", itoa(b), -1)
+		files[i] = f
+		inputs = append(inputs, minifier.InputFile{Path: "f" + itoa(i) + ".lisp", Source: []byte(f)})
+	}
+	res, err := minifier.Minify(inputs, cfg)
+	vAssert(err == nil && len(res.Files) == len(files), "the session minifies")
+	res2, err2 := minifier.Minify(inputs, cfg)
+	vAssert(err2 == nil, "twice")
+	run := func(srcs []string) (string, string) {
+		env := newEnv(nil)
+		out := &c17Buf{}
+		env.Runtime.Stderr = out
+		var r *lisp.LVal
+		for i, s := range srcs {
+			r = env.LoadString("f"+itoa(i)+".lisp", s)
+			if r.Type == lisp.LError {
+				break
+			}
+		}
+		return outcome(r), out.sb.String()
+	}
+	var mins []string
+	for i, f := range res.Files {
+		mins = append(mins, string(f.Output))
+		vAssert(string(res2.Files[i].Output) == string(f.Output), "minifying the same session twice gives byte-identical output")
+	}
+	vObserve("files", strings.Join(files, " || "))
+	vObserve("min", strings.Join(mins, " || "))
+	v0, o0 := run(files)
+	v1, o1 := run(mins)
+	vAssert(!strings.HasPrefix(v0, "error"), "the original session runs: "+v0)
+	vAssert(v0 == v1, "same value / error condition after minifying the session: "+v0+" vs "+v1)
+	vAssert(o0 == o1, "same output: "+o0+" vs "+o1)
+	vCover("end")
+}
+
+// Minifying the same session twice gives byte-identical output: the second run takes EVERY
+// iteration order of every Go map (of 2-4 keys) the minifier ranges over.  Sessions in which two
+// files define the same name, where the order of the symbol scan decides the generated names.
+func VerifC17_KSessionOrder() {
+	vMapOrder(false)
+	sessions := [][]string{
+		{"(defun main () (helper))", "(defun helper () 1)", "(defun helper () 2) (main)"},
+		{"(in-package 'lib) (defun dupfn (val) (+ val 1)) (defun onlyone (val) (dupfn val))", "(in-package 'lib) (defun dupfn (val) (+ val 2))", "(in-package 'user) (lib:dupfn 1)"},
+	}
+	si := vConcInt(vndChoice("session", len(sessions)))
+	cfg := &minifier.Config{PreserveParams: true, Formatter: formatter.DefaultConfig()}
+	cfg.Formatter.Compact = true
+	var inputs []minifier.InputFile
+	for i, f := range sessions[si] {
+		inputs = append(inputs, minifier.InputFile{Path: string(rune('a'+i)) + ".lisp", Source: []byte(f)})
+	}
+	res, err := minifier.Minify(inputs, cfg)
+	vAssert(err == nil, "the session minifies")
+	vMapOrder(true)
+	res2, err2 := minifier.Minify(inputs, cfg)
+	vMapOrder(false)
+	vAssert(err2 == nil, "twice")
+	for i, f := range res.Files {
+		vAssert(string(res2.Files[i].Output) == string(f.Output), "byte-identical output whatever order Go iterates its maps in: "+string(f.Output)+" / "+string(res2.Files[i].Output))
+	}
+	vAssert(len(res.SymbolMap.Entries) == len(res2.SymbolMap.Entries), "and an identical symbol map")
+	for i := range res.SymbolMap.Entries {
+		vAssert(res.SymbolMap.Entries[i] == res2.SymbolMap.Entries[i], "entry by entry")
+	}
+	vCover("end")
 }
 
 type c17Buf struct{ sb strings.Builder }
